@@ -129,7 +129,9 @@ def run(ctx):
                 # ---- default arguments: slice(from) runs to the end of the content; cut(from) likewise; a cut over everything
                 # is the node itself
                 std_, sld = outcome(lambda: (d.slice(f), d.slice(f, d.content.size), d.cut(f), d.cut(f, d.content.size), d.cut(0)))
-                if std_ != "ok" or not sld[0].eq(sld[1]) or not sld[2].eq(sld[3]) or not sld[4].eq(d):
+                if std_ == "hang":
+                    ctx.count("slice-defaults:timeout")
+                elif std_ != "ok" or not sld[0].eq(sld[1]) or not sld[2].eq(sld[3]) or not sld[4].eq(d):
                     ctx.violation("slice-defaults", "slice(from) / cut(from) do not default `to` to the end of the content, or cut(0) is not the node",
                                   {"schema": info.name, "doc": d.to_json(), "from": f, "detail": str(sld)[:200]})
                 # ---- re-insertion
